@@ -13,6 +13,7 @@
 From Coq Require Import List NArith Bool.
 From WTP Require Import Base.Str Model.Attrs Model.ToWikitext Proofs.AttrsProofs Proofs.ToWikitextProofs.
 From WTP Require Model.Tables Model.TableEmit Proofs.TablesProofs Proofs.TableEmitProofs.
+From WTP Require Model.Blocks Proofs.BlocksProofs Proofs.BlocksEmitProofs.
 Import ListNotations.
 
 Theorem c19_attributes_survive :
@@ -58,6 +59,23 @@ Example c19_a_table_tree :
   shaped 5 T = true /\ parse (emit T) = Some [CN T].
 Proof. split; reflexivity. Qed.
 End TablesRoundTrip.
+
+(* Blocks.  Writing a page tree back in document order -- a heading line per section, a line per paragraph, rule and
+   list item, which is what the LEVEL / HLINE / LIST / LIST_ITEM emitters of to_wikitext do -- gives the very lines the
+   page was parsed from; so parsing what was written gives the same tree, for every page of headings, paragraphs,
+   rules and list lines in any order. *)
+Module BlocksRoundTrip.
+Import Blocks BlocksProofs BlocksEmitProofs.
+Theorem c19_blocks_written_back_are_the_page :
+  forall d, blocks_of_forest (Blocks.spec d) = d.
+Proof. exact written_back_is_the_page. Qed.
+Print Assumptions c19_blocks_written_back_are_the_page.
+
+Theorem c19_block_structure_survives_the_round_trip :
+  forall d, Forall cblk_ok d -> Blocks.parse (blocks_of_forest (Blocks.parse d)) = Blocks.parse d.
+Proof. exact blocks_round_trip_of_parsed. Qed.
+Print Assumptions c19_block_structure_survives_the_round_trip.
+End BlocksRoundTrip.
 
 (* BEGIN PINS (tools/repin.py) *)
 From WTP Require Import Gen.GenPins.
